@@ -545,6 +545,57 @@ let run (cmd : string) (args : string list) : string =
         Printf.sprintf "%s #%d t%d%s" (String.concat " " evs) (int_of_n res.Search.r_gnodes) acc (if oc >= 2 then Printf.sprintf " MODEL-OUTCOME-%d" oc else ""))
       (String.split_on_char '|' fens) in
     String.concat " || " outs
+  | "node", [hseed; jseed; md; cd; ce; alpha; beta; nt; nb; hist; pre; fen] ->
+    (* ONE call of Search.analyze with arbitrary parameters (the object of the call-level theorems), table preloaded *)
+    let int_of_z = function Z0 -> 0 | Zpos p -> int_of_pos p | Zneg p -> - (int_of_pos p) in
+    let z_of_int i = if i >= 0 then (match n_of_int i with N0 -> Z0 | Npos p -> Zpos p) else (match n_of_int (-i) with N0 -> Z0 | Npos p -> Zneg p) in
+    (match model_state fen with
+     | None -> "badfen"
+     | Some st ->
+       let r0 = Rng.of_seed_u64 (Int64.of_string ("0u" ^ hseed)) in
+       let hs = Text.hasher_of_stream (L.init 1038 (fun _ -> Rng.next_u64_n r0)) in
+       let tt0 = Table.empty_access (nat_of_int (int_of_string nt)) (nat_of_int (int_of_string nb)) in
+       let history = if hist = "-" then [] else
+         L.fold_left (fun acc h -> match model_state h with
+           | Some s -> let k = Text.hash hs s in if L.exists (fun x -> x = k) acc then acc else k :: acc
+           | None -> acc) [] (String.split_on_char '|' hist) in
+       let root = Text.hash hs st in
+       let kind_of = function "0" -> Table.Exact | "1" -> Table.UpperBound | _ -> Table.LowerBound in
+       let tt = if pre = "-" then tt0 else
+         L.fold_left (fun tt e -> match String.split_on_char ':' e with
+           | [k; kd; mv; d; mx; ev] ->
+             let key = if k = "@" then root else n_of_dec k in
+             Table.acc_insert tt key { Table.e_kind = kind_of kd; e_move = n_of_dec mv; e_depth = n_of_dec d; e_maxdepth = n_of_dec mx; e_eval = z_of_int (int_of_string ev) }
+           | _ -> tt) tt0 (String.split_on_char ';' pre) in
+       let jr = Rng.of_seed_u64 (Int64.of_string ("0u" ^ jseed)) in
+       let buf = ref (Array.make 1024 0) and filled = ref 0 in
+       let jit idxn =
+         let idx = int_of_n idxn in
+         while !filled <= idx do
+           if !filled >= Array.length !buf then begin
+             let nb2 = Array.make (2 * Array.length !buf) 0 in Array.blit !buf 0 nb2 0 !filled; buf := nb2 end;
+           (!buf).(!filled) <- Rng.gen_range_incl jr (-10) 10; incr filled
+         done;
+         z_of_int (!buf).(idx) in
+       let mdi = int_of_string md and cdi = int_of_string cd in
+       let fuel = nat_of_int ((if mdi > cdi then mdi - cdi else 0) + 2) in
+       let w0 = { Search.w_tt = tt; w_jidx = N0; w_nodes = N0; w_gnodes = N0; w_flag = false; w_trace = [] } in
+       (match Search.analyze hs history jit None fuel st (n_of_dec md) (n_of_dec cd) (n_of_dec ce)
+                (z_of_int (int_of_string alpha)) (z_of_int (int_of_string beta)) None w0 with
+        | Search.SVal (v, w) ->
+          let mdv = 1000000007 in
+          let nmod n = int_of_n (snd (BinNat.N.div_eucl n (n_of_int mdv))) in
+          let pad s = String.make (20 - String.length s) '0' ^ s in
+          let entries = L.concat_map (fun t -> L.concat_map (fun b -> L.filter_map (fun sl -> sl) b) t.Table.t_buckets) w.Search.w_tt in
+          let entries = L.sort (fun (k1, _) (k2, _) -> compare (pad (dec_of_n k1)) (pad (dec_of_n k2))) entries in
+          let kind_int = function Table.Exact -> 0 | Table.UpperBound -> 1 | Table.LowerBound -> 2 in
+          let acc = L.fold_left (fun acc (k, e) ->
+            L.fold_left (fun acc x -> (acc * 131 + x + 7) mod mdv) acc
+              [nmod k; kind_int e.Table.e_kind; nmod e.Table.e_move; int_of_n e.Table.e_depth mod mdv; int_of_n e.Table.e_maxdepth mod mdv; int_of_z e.Table.e_eval + 20000]) 17 entries in
+          Printf.sprintf "V%d #%d T%d:%d" (int_of_z v) (int_of_n w.Search.w_nodes) (L.length entries) acc
+        | Search.SInterrupt _ -> "interrupted"
+        | Search.SPanic _ -> "panic"
+        | Search.SFuel -> "MODEL-FUEL"))
   | "msearch", [hseed; seed; depth; workers; nt; nb; hist; sched; fens] ->
     (* several workers on one shared table under a forced schedule (model/Conc.v); the harness runs the real
        analyze_iterative under the same schedule through the yield-point hook *)
